@@ -106,6 +106,21 @@ def plan(tier, seed):
     for kk in ([[0.0, 0.0], [20.0, 0.0]], [[15.0, -15.0], [-15.0, 15.0], [0.0, 25.0]],
                [[0.0, 0.0], [0.5, 0.2]], [[0.3, 0.1], [-0.2, 0.4], [0.0, 0.1]]):
         P.add("spokes", k=kk, tbw=4, sl=5.0, gmax=4.0, dgdt=2e4, dt=4e-6)
+    # near-ties: an equidistant spoke table written with six decimals (pitch 1/3, 1/7 ...), or
+    # steps perturbed at the 1e-6 level - consecutive increments agree to five or six digits
+    # but are not equal; each is its own request
+    rngn = P.rng("spokes-near")
+    for i in range(10 if quick else 120):
+        ns = int(rngn.integers(3, 7))
+        pitch = float(pick(rngn, [1 / 3, 1 / 7, 0.2 / 3, 2 / 3]))
+        ax = int(rngn.integers(2))
+        k = []
+        for j in range(ns):
+            v = round(j * pitch, 6) if i % 2 == 0 else j * pitch * (1 + 3e-6 * float(
+                rngn.uniform(-1, 1)))
+            k.append([v, 0.0] if ax == 0 else [0.1, v])
+        P.add("spokes", ktype="near-equidistant", k=k, tbw=int(pick(rngn, [2, 4])),
+              sl=float(pick(rngn, [5.0, 10.0])), gmax=4.0, dgdt=2e4, dt=4e-6)
     rng = P.rng("spokes")
     for i in range(150 if quick else 2500):
         ns = int(rng.integers(1, 7))
@@ -159,6 +174,16 @@ def run_trap(case):
         gmax, dgdt = float(np.float32(gmax)), float(np.float32(dgdt))
     try:
         g, ramppts = getattr(T, fn)(*args)
+        if fn == "trap_grad" and case.get("mode") in ("random", "boundary") and \
+                sum(case.get("rs", [0])) % 3 == 0:
+            # trap_grad(area, gmax, dgdt, dt, 1): the explicit "ramp-sampled" flag of the
+            # MATLAB original the port accepts - the same total-area design
+            g5, r5 = T.trap_grad(*(args + (1,)))
+            if np.shape(g5) != np.shape(g) or not np.array_equal(np.asarray(g5), np.asarray(g)):
+                return violated(sig, "trap_grad(area, gmax, dgdt, dt, 1) differs from the "
+                                "four-argument call (integral %.6g vs %.6g)" % (
+                                    float(np.sum(g5) * dt), float(np.sum(g) * dt)), wit,
+                                mech="fifth-argument:trap_grad")
     except Exception as e:
         return violated(sig, "%s(%.6g, %.6g, %.6g, %.6g) raised %s: %s" % (
             fn, area, gmax, dgdt, dt, type(e).__name__, str(e)[:150]), wit,
